@@ -101,7 +101,8 @@ def check(ctx):
     # P: ONE preemption inside a task: a fused multislice block is parked at its k-th call into abTEM code, a second ready block runs to
     # completion, the first resumes (both roles).  thorough: EVERY call event k; quick: a uniform stride of the call events (reported as a cap)
     PSIMS = [["ms", "crystal", None, "pix", "custom", 1], ["ms", "fp2", None, "waves", "custom", 1], ["prism"], ["ctf"],
-             ["ms", "atoms", 1, "multi", "grid", 2], ["ms", "ae2", None, "flex", "grid", 1], ["ms", "crystal_fp", None, "seg", "custom", 1]]
+             ["ms", "atoms", 1, "multi", "grid", 2], ["ms", "ae2", None, "flex", "grid", 1], ["ms", "crystal_fp", None, "seg", "custom", 1],
+             ["build", "crystal"], ["build", "fp3"], ["build", "crystal_fp"]]
     nchunks = 8 if q else 16
     PC = [{"space": "P", "sim": sim, "point": j, "chunk": [ci, nchunks], "max_points": 40 if q else None}
           for sim in (PSIMS[:4] if q else PSIMS) for j in range(2 if q else 4) for ci in range(nchunks)]
@@ -279,6 +280,8 @@ def run_preempt(c):
         if sim[0] == "ms":
             _, p, ep, d, s_, mb = sim
             out = U.builder("probe").multislice(U.potential(p, ep), scan=U.scan(s_), detectors=U.detector(d), lazy=True, max_batch=mb)
+        elif sim[0] == "build":  # lazy potential build: the blocks of a CrystalPotential share their unit by reference
+            out = U.potential(sim[1], None).build(lazy=True)
         elif sim[0] == "prism":
             S = abtem.SMatrix(potential=U.potential("fp2", None, gpts=(24, 24)), semiangle_cutoff=20, energy=100e3, interpolation=2)
             out = S.reduce(scan=abtem.CustomScan([[0.3, 0.4], [2.1, 1.7], [3.6, 2.9]]), ctf=abtem.CTF(semiangle_cutoff=20, energy=100e3, C10=abtem.distributions.from_values([10.0, 50.0])), lazy=True)
